@@ -20,6 +20,7 @@ type SEnv struct {
 	facts   []string
 	bound   map[string]bool
 	callee  *ssa.Function
+	applies *[]applyRec // applications of function-valued parameters met while translating
 	pol     int       // +1: the formula is assumed; -1: it is to be proved; 0: unknown / both
 	qfacts  *[]string // typing facts about terms that mention variables of the innermost quantifier
 }
@@ -46,6 +47,31 @@ func (e *SEnv) heapFact(v Val) {
 		return
 	}
 	e.facts = append(e.facts, f)
+}
+
+type applyRec struct {
+	Param string // name of the function-valued parameter
+	Term  string // the application term
+	Args  []Val
+	S     Sort
+}
+
+// applyTerm: application of a function value (assumed deterministic and free of effects on the
+// modelled heap for the duration of the enclosing call): an uninterpreted function of the
+// function value and the arguments.
+func (c *FnCtx) applyTerm(fn Val, args []Val, res types.Type) Val {
+	rs := c.sortOf(res)
+	name := "apply"
+	sorts := []Sort{SInt}
+	ts := []string{fn.T}
+	for _, a := range args {
+		name += "_" + mangle(string(a.S))
+		sorts = append(sorts, a.S)
+		ts = append(ts, a.T)
+	}
+	name += "__" + mangle(string(rs))
+	c.ufun(name, sorts, rs)
+	return Val{T: sx(name, ts...), S: rs, GT: res}
 }
 
 func (e *SEnv) child() *SEnv {
@@ -762,6 +788,16 @@ func (e *SEnv) call(n *ECall) Val {
 				}
 			}
 			return Val{T: sx("mk_ev", f.T, sInt(int64(len(n.Args)-1)), args[0], args[1], args[2], args[3]), S: SEvent}
+		case "evfmt":
+			a := e.tr(n.Args[0])
+			return Val{T: sx("ev_fmt", a.T), S: SInt, GT: types.Typ[types.String]}
+		case "evn":
+			a := e.tr(n.Args[0])
+			return Val{T: sx("ev_n", a.T), S: SInt, GT: types.Typ[types.Int]}
+		case "eva":
+			a := e.tr(n.Args[0])
+			k := n.Args[1].(*EInt).V
+			return Val{T: sx(fmt.Sprintf("ev_a%d", k), a.T), S: SIface}
 		case "evs":
 			f := e.tr(n.Args[0])
 			s := e.tr(n.Args[1])
@@ -816,6 +852,26 @@ func (e *SEnv) call(n *ECall) Val {
 			}
 			c.ufun(name, sorts, sortByName(u.Res))
 			return Val{T: sx(name, args...), S: sortByName(u.Res)}
+		}
+		// application of a function-valued parameter / variable
+		if fv, ok := e.vars[name]; ok || e.resolve != nil {
+			if !ok {
+				fv, ok = e.tryResolve(name)
+			}
+			if ok && fv.GT != nil {
+				if sig, isSig := fv.GT.Underlying().(*types.Signature); isSig && sig.Results().Len() == 1 {
+					var vals []Val
+					for _, a := range n.Args {
+						vals = append(vals, e.tr(a))
+					}
+					r := c.applyTerm(fv, vals, sig.Results().At(0).Type())
+					if e.applies != nil {
+						*e.applies = append(*e.applies, applyRec{Param: name, Term: r.T, Args: vals, S: r.S})
+					}
+					c.note("function-valued parameters are treated as deterministic functions without effect on the modelled heap during the call")
+					return r
+				}
+			}
 		}
 		// pure module function
 		if f := c.V.Funcs[c.home.Name()+":"+name]; f != nil {
